@@ -966,6 +966,11 @@ def _is_number(x: str) -> bool:
 def oracle_c12(rr: Any, spec: Dict[str, Any]) -> "tuple[List[Violation], int]":
     tr = rr.trace
     v: List[Violation] = []
+    ret = first(tr, "listen_returned")
+    if ret is not None:
+        # what happens after listen() has returned is the harness closing its event loop (it cancels the executions
+        # that wait_tasks_timeout left behind), not the worker
+        tr = [e for e in tr if e["i"] <= ret["i"]]
     per = by_delivery(tr)
     cfg = spec.get("cfg", {})
     propagate = cfg.get("propagate", True)
@@ -975,6 +980,16 @@ def oracle_c12(rr: Any, spec: Dict[str, Any]) -> "tuple[List[Violation], int]":
     for info in rr.sc.deliveries:
         d = info["d"]
         evs = per.get(d, [])
+        if info["kind"] == "valid" and first(evs, "cb_exit") is None and first(evs, "task_start") is not None \
+                and first(evs, "task_end") is None:
+            # an execution the worker left running when it returned: its function has not finished, so none of its
+            # dependencies may have been finalised
+            early = [e for e in evs if e["k"] == "dep_close"]
+            if early:
+                checked += 1
+                v.append(Violation("teardown-early", f"delivery {d}: {early[0]['dep']} torn down at t={early[0]['t']} while the task function "
+                                   "was still running (the worker had stopped waiting for it)"))
+            continue
         if first(evs, "cb_exit") is None or info["kind"] != "valid":
             continue
         opens = [e for e in evs if e["k"] == "dep_open" and e["dep"] in yielding]
@@ -1032,6 +1047,12 @@ def oracle_c12(rr: Any, spec: Dict[str, Any]) -> "tuple[List[Violation], int]":
             seen = c.get("exc_seen") is not None
             if seen != (failed and propagate):
                 v.append(Violation("exception-propagation", f"delivery {d}: dependency {c['dep']} exc_seen={c.get('exc_seen')} with outcome={how}, propagate={propagate}"))
+                break
+            raised = rr.sc.raised.get(d)
+            if seen and how == "raise" and raised is not None and c["exc_seen"] != type(raised).__name__:
+                # ... and what is thrown is the task's exception, not something made from it
+                v.append(Violation("exception-propagation", f"delivery {d}: the task raised {type(raised).__name__}, dependency {c['dep']} had "
+                                   f"{c['exc_seen']} thrown into it"))
                 break
     if rr.outcome in ("deadlock", "raised"):
         v.append(Violation("worker-stalled", f"outcome {rr.outcome}: {rr.err}"))
